@@ -160,6 +160,9 @@ func regCmd(args []string) error {
 			// re-pushes of the same content differ in it
 			nscen++
 			for i := range s.Ops {
+				if (s.Ops[i].Op == "RawPatch" || s.Ops[i].Op == "RawPut") && (nscen+i)%3 == 0 {
+					s.Ops[i].Chunk = 1 // streamed body
+				}
 				if s.Ops[i].Op == "PushBlob" && s.Ops[i].BMT == "" {
 					s.Ops[i].BMT = []string{"", "other2", "image", ""}[(nscen+i)%4]
 				}
